@@ -20,7 +20,8 @@ from .. import common, rt, gen_wide, corpus, tel
 
 PROP = 'C15'
 MODULES = ['Cnl2aspModel.Props.C15']
-THEOREMS = ['C15_capitalize_keeps_values', 'C15_printer_mentions', 'C15_printer_single', 'C15_verb']
+THEOREMS = ['C15_capitalize_keeps_values', 'C15_printer_mentions', 'C15_printer_single', 'C15_verb', 'C15_sentence_mentions_all',
+            'C15_sentence_values_are_arguments']
 
 
 def core_spec(rng):
@@ -121,6 +122,87 @@ def explain(text, models):
     return out
 
 
+def _ent_json(e):
+    from ..harvest import origin_chain
+
+    def attr(a):
+        return {'name': a.get_name(), 'value': str(a.value), 'origin': origin_chain(a.origin), 'label': str(a)}
+    return {'name': str(e.get_name()), 'keys': [attr(a) for a in e.keys], 'attrs': [attr(a) for a in e.attributes]}
+
+
+def _name_pairs(names):
+    from cnl2asp.specification.name_component import NameComponent
+    names = sorted(n for n in set(names) if n)
+    pairs = []
+    for x in names:
+        for y in names:
+            if x == y:
+                continue
+            e1 = NameComponent(x) == y
+            if e1 != (NameComponent(x) == NameComponent(y)):
+                return None
+            if e1:
+                pairs.append([x, y])
+    return pairs
+
+
+def sentence_cases(text, models, limit=40):
+    """the sentence-construction layer: for every explained atom, the real signature (entity, subjects, verb, objects), the subject
+    the real code picks, and the sentence the real `_clingo_symbol_to_sentence` builds — for the model op `c15.sentence`"""
+    import clingo
+    from cnl2asp.cnl2asp import Cnl2asp
+    from cnl2asp.ASP_elements.solver.clingo_result_parser import ClingoResultParser
+    rt.reset_globals()
+    out = []
+    with contextlib.redirect_stdout(io.StringIO()):
+        spec = Cnl2asp(text).parse_input()
+        p = ClingoResultParser(spec)
+        p._get_new_knowledge()
+        for m in models:
+            for a in m:
+                if len(out) >= limit:
+                    break
+                sym = clingo.parse_term(a.strip())
+                if sym.name not in p.target_predicates:
+                    continue
+                sig = p._get_signature(sym.name)
+                if len(sym.arguments) < len(sig.new_entity.get_keys_and_attributes()):
+                    continue
+                args = [str(x).removeprefix('"').removesuffix('"') for x in sym.arguments]
+                # which subject does the real code pick? (several subjects: decided by the specification's declared entities)
+                subject = None
+                if len(sig.subject) == 1:
+                    subject = sig.subject[0]
+                elif len(sig.subject) > 1:
+                    probe = p._get_signature(sym.name)
+                    p._parse_clingo_symbol(sym, probe.new_entity)
+                    picked = False
+                    for ent in probe.subject:
+                        if p._search_entity(ent.get_name(), p._attributes_intersection(ent, probe.new_entity)):
+                            subject = next(x for x in sig.subject if x.get_name() == ent.get_name())
+                            picked = True
+                            break
+                    if not picked:
+                        continue        # `_convert_subject` returns None: outside the model
+                names = [sig.new_entity.get_name()] + [x for e in [sig.new_entity] + list(sig.subject) + list(sig.objects or [])
+                                                       for at in e.get_keys_and_attributes()
+                                                       for x in [at.get_name()] + __import__('harness.harvest', fromlist=['x']).origin_chain(at.origin)]
+                names += [e.get_name() for e in list(sig.subject) + list(sig.objects or [])]
+                pairs = _name_pairs([str(n) for n in names])
+                if pairs is None:
+                    continue
+                req = {'entity': _ent_json(sig.new_entity), 'subject': _ent_json(subject) if subject is not None else None,
+                       'verb': str(sig.verb) if sig.verb is not None else '', 'objects': [_ent_json(o) for o in (sig.objects or [])],
+                       'args': args, 'eqpairs': pairs}
+                try:
+                    real = p._clingo_symbol_to_sentence(sym)
+                except Exception as e:  # noqa
+                    real = f'!{type(e).__name__}'
+                out.append((a, req, real))
+    rt.reset_globals()
+    return out
+
+
 def head_predicates(program):
     from .. import aspast
     preds = set()
@@ -178,6 +260,10 @@ def _job(args):
         return {'text': text, 'program': r[1], 'explain_error': f'{type(e).__name__}: {e}'[:300], 'models': models}
     heads = head_predicates(r[1])
     out = {'text': text, 'program': r[1], 'models': models, 'explanations': exps, 'heads': sorted(heads), 'readback': []}
+    try:
+        out['sentence_cases'] = sentence_cases(text, models[:2])
+    except Exception as e:  # noqa
+        out['sentence_cases_error'] = f'{type(e).__name__}: {e}'[:300]
     if readback:
         for m, e in zip(models[:1], exps[:1]):
             rb_text = '\n'.join(decl_lines) + '\n' + e
@@ -188,6 +274,44 @@ def _job(args):
             rm = rt.clingo_models(rr[1], limit=3)
             out['readback'].append({'text': rb_text, 'program': rr[1], 'models': [sorted(x) for x in rm[1]] if rm[0] == 'ok' else str(rm[1])})
     return out
+
+
+def sentence_layer(run, results):
+    """ExplainSentence.lean vs the real `_clingo_symbol_to_sentence`, sentence by sentence; the mention theorem's hypothesis and
+    conclusion are evaluated by the model on every case (the values mentioned are a permutation of the atom's arguments)"""
+    cases = []
+    for r in results:
+        if r.get('sentence_cases_error'):
+            run.note('sentence layer: signature could not be serialised: ' + r['sentence_cases_error'])
+        for a, req, real in r.get('sentence_cases', []):
+            cases.append((r['text'], a, req, real))
+    try:
+        answers = common.run_model([('c15.sentence', c[2]) for c in cases])
+    except RuntimeError as e:
+        run.broke('corr', 'model driver (c15.sentence)', e)
+        return
+    stats = {'sentences': len(cases), 'with_subject': 0, 'with_objects': 0, 'hypothesis_holds': 0, 'mismatches': 0}
+    for (text, atom, req, real), a in zip(cases, answers):
+        run.count(('sentence', atom, real))
+        stats['with_subject'] += req['subject'] is not None
+        stats['with_objects'] += bool(req['objects'])
+        if a.get('sentence') != real:
+            stats['mismatches'] += 1
+            if stats['mismatches'] <= 3:
+                run.broke('corr', 'ExplainS.sentence vs ClingoResultParser._clingo_symbol_to_sentence',
+                          {'cnl': text[:600], 'atom': atom, 'real': real, 'model': a.get('sentence'), 'signature': req})
+                # failing-input search on the real sentence: does it still name every argument of its atom?
+                missing = [v for v in req['args'] if v.lower() not in real.lower()]
+                if missing:
+                    run.violation('mention/value-missing/sentence-layer', f'value {missing[0]!r} of {atom} does not occur in {real!r}',
+                                  {'cnl': text, 'atom': atom, 'sentence': real})
+            continue
+        if a.get('nocross'):
+            stats['hypothesis_holds'] += 1
+            if sorted(a['mentioned']) != sorted(req['args']):
+                run.broke('proof', 'C15_sentence_mentions_all evaluated on a real signature: the mentioned values are not the arguments',
+                          {'atom': atom, 'mentioned': a['mentioned'], 'args': req['args']})
+    run.coverage['sentence_layer'] = stats
 
 
 def trace_spec(rng):
@@ -238,7 +362,7 @@ def main(tier):
                             'of core-fragment specifications (declared concepts, facts with mixed-case values, a choice and a derived relation) and of '
                             'the corpus problems, explained by the real ClingoResultParser: selection, order, mention of every value, distinctness, '
                             'read-back round trip; non-trivial = explained answer set with at least 3 atoms')
-    run.lean(MODULES, THEOREMS, extra_modules=['Cnl2aspModel.Compiler.Explain'])
+    run.lean(MODULES, THEOREMS, extra_modules=['Cnl2aspModel.Compiler.Explain', 'Cnl2aspModel.Compiler.ExplainSentenceLemmas'])
     # ---- unit -----------------------------------------------------------------
     from cnl2asp.ASP_elements.solver.clingo_result_parser import ClingoResultParser
     from cnl2asp.specification.attribute_component import AttributeComponent, ValueComponent, AttributeOrigin
@@ -338,6 +462,7 @@ def main(tier):
                 missing = sorted(set(target) - set(rb['models'][0]))[:3]
                 extra = sorted(set(rb['models'][0]) - set(target))[:3]
                 run.violation('readback/different', f'read-back answer set differs: missing {missing} extra {extra}', rp)
+    sentence_layer(run, results)
     # ---- telingo traces: one heading per state, in order, with the sentences of that state --------------
     tjobs = [gen_wide.gen_temporal_spec(rng).text() for _ in range(8 if tier == 'quick' else 80)]
     tjobs += [trace_spec(rng) for _ in range(10 if tier == 'quick' else 60)]
@@ -373,6 +498,6 @@ def main(tier):
     for r in results[:2]:
         if 'explanations' in r:
             run.sample({'cnl': r['text'][:300], 'model': r['models'][0][:6], 'explanation': r['explanations'][0][:300]})
-    run.assumptions += ['how the arguments of an atom are matched to subject / objects is not modelled in Lean (checked on the real code only)',
+    run.assumptions += ['which of several possible subjects an atom is explained with (_convert_subject, decided by the declared entities) is a parameter of the model',
                         'read-back is claimed for declared concepts, facts, and subject-verb-object relations']
     return run.finish()
